@@ -154,7 +154,7 @@ TEXT["C07"] = {
     "level": "Kernel-checked: in the byte-level model of the format, tags made of arbitrary bytes survive escape -> read exactly and the escaped form contains no raw ']' / LF / CR; printed unsigned numbers read back "
              "exactly below the reader's limit. Correspondence (equality): the Lean printer produces byte-for-byte what Circuit::str() prints (incl. %g formatting of arguments) and the Lean parser makes the "
              "same accept/reject decision and builds the same circuit as the implementation on printed circuits, edited texts, documented violations, truncated texts and random bytes.",
-    "note": COMMON_NOTE + "One genuine defect fixed (string entry points read byte 0xFF as end of input). Proved: tags, unsigned numbers, every target form, whole target lists of any length (C07c.targets_round_trip), whole instruction lines for every gate of the regenerated table (C07d.instr_round_trip), and whole files with REPEAT blocks nested to any depth: the printed text is read back by the file parser as exactly the program after the documented fusion (C07f.block_round_trip; the parser's fuel is proved sufficient); a program without adjacent fusable instructions reads back as exactly itself, and fusion always yields such a program and is idempotent (C07g.exact_round_trip, fusedOps_fuseList, fuseList_idem); white space and comment lines between top-level operations never change the parsed program (C07h.dead_text_ignored). Parenthesised arguments enter these theorems through the explicit hypothesis ArgsReadBack (the printed argument list reads back as itself; proved for instances by kernel evaluation); the %g printer / literal reader pair itself is established by correspondence.",
+    "note": COMMON_NOTE + "One genuine defect fixed (string entry points read byte 0xFF as end of input). Proved: tags, unsigned numbers, every target form, whole target lists of any length (C07c.targets_round_trip), whole instruction lines for every gate of the regenerated table (C07d.instr_round_trip), and whole files with REPEAT blocks nested to any depth: the printed text is read back by the file parser as exactly the program after the documented fusion (C07f.block_round_trip; the parser's fuel is proved sufficient); a program without adjacent fusable instructions reads back as exactly itself, and fusion always yields such a program and is idempotent (C07g.exact_round_trip, fusedOps_fuseList, fuseList_idem); white space and comment lines between top-level operations never change the parsed program (C07h.dead_text_ignored). Parenthesised arguments enter these theorems through the explicit hypothesis ArgsReadBack (the printed argument list reads back as itself; C07i.args_read_back reduces it to one exactness condition per number, proved for instances by kernel evaluation); the %g printer / literal reader pair itself is established by correspondence.",
     "technique": "Lean 4 theorems (token, line and whole-file round trips incl. nested blocks and fusion) + equality correspondence with a byte-level printer/parser model",
 }
 NOT_CLAIMED = {}
